@@ -4,10 +4,14 @@ engine behind py2lean.generate().
 
 Targets (keys of FILES):
   bottleneck_search   persim/bottleneck.py  -> lean/PersimVerif/Generated/SrcBottleneckSearch.lean
+      `bn_preamble`  the top-level statements up to and including the last `if` in front of `D = np.zeros(...)` (conversion to
+                 float arrays, `M = min(S.shape[0], S.size)`, the finite-death filter with its warning, the `[[0, 0]]` substitution)
+                                                                                       = Bottleneck.filterFinite / withPlaceholder
       `bisect`   the statements behind the last block assignment `D[...] = ...` up to and including the top-level `while`
                  ("Step 2": sorted distinct entries, the bisection with the Hopcroft-Karp oracle)       = Bottleneck.searchLoop
       `bn_rows`  the body of the top-level `if return_matching:` in front of its `return` (the extraction loop) = Bottleneck.extractRows
   wasserstein_assign  persim/wasserstein.py -> lean/PersimVerif/Generated/SrcWassersteinAssign.lean
+      `ws_preamble`  the same statements of `wasserstein`                               = Wasserstein.finitePart / warned / orPlaceholder
       `assign`   the statements behind the last block assignment `D[...] = ...` up to the top-level `if matching:`
                  (`linear_sum_assignment`, `np.sum(D[matchi, matchj])`)                                  = pairs.mapM lookup / optSum
       `ws_rows`  the body of `if matching:` in front of its `return` (the vectorised extraction)         = Wasserstein.rowsOf
@@ -60,10 +64,18 @@ Semantics of the subset (the translator's conventions):
     `ret[<mask>, c] = e` is `ret.map fun r => if <mask at r> then <r with column c := e> else r`, `ret[<mask>, :]` is
     `ret.filter`; in a mask `ret[:, c]` is the column `c` of the row (`r.1`, `r.2.1`, `r.2.2`); `np.array(x)` is `x`;
     `[(i, j) for i, j in zip(a, b)]` is `(a.zip b).map fun (i, j) => (i, j)`.
-What is not translated is pinned as text: `srcSkeletonAfter_<function>` (the function from the first translated statement to
-its end with every translated statement replaced by `...`: the `if return_matching:` / `if matching:` header and the `return`
-statements), `srcSignature_…`, `srcBindings_<key>`; the part of the function in front of it is pinned / translated in
-Generated/SrcBottleneck.lean / SrcWasserstein.lean (`src_aug_entry_skeleton`, `src_aug_entry_eq_model`).
+  * the preamble: an input diagram is the list of its rows `(birth, death)` with `death : Option α` (`none` = a non-finite death;
+    further columns are ignored, as in the model); `np.array(x, dtype=float)` is `x` (the models are dtype-free; the call texts are
+    pinned: `src_<f>_conversions`); `S.shape[0]` is `S.length`; `S.size` is `c * S.length` for the number `c` of columns of the
+    array, a PARAMETER of the definition (`c1`, `c2`; the equalities with the model hold for `c ≥ 1`: an empty 1-D array has size 0
+    as well); `min(a, b)` is `min`; `S[np.isfinite(S[:, 1]), :]` is `S.filter fun p => p.2.isSome`; `np.array([[0, 0]])` is
+    `[(0, some 0)]`; the k-th statement `warnings.warn(<message>)` sets the flag `warn<k>`, `false` at entry (the message texts are
+    pinned: `src_<f>_warnings`); the arrays `S`, `T` handed on to the matrix region have finite deaths only
+    (`SrcBridge.Matching.lift` of the model's point lists).
+What is not translated is pinned as text: `srcSkeleton_<function>` (the function with every translated statement -- of this
+engine and of the matrix region -- replaced by `...`: what is left is the `if return_matching:` / `if matching:` header and the
+`return` statements), `srcSignature_…`, `srcBindings_<key>`; the matrix region between the preamble and Step 2 is translated in
+Generated/SrcBottleneck.lean / SrcWasserstein.lean (`src_aug_entry_eq_model`).
 """
 import ast
 import os
@@ -90,6 +102,20 @@ def is_list(t):
     return isinstance(t, tuple) and t[0] == "list"
 
 
+def Dgm(cols):
+    """a diagram array whose deaths may be non-finite; `cols`: the name of the parameter that stands for its number of columns
+    (None: not known, `.size` cannot be read)"""
+    return ("dgm", cols)
+
+
+def is_dgm(t):
+    return isinstance(t, tuple) and t[0] == "dgm"
+
+
+def norm_ty(t):
+    return ("dgm",) if is_dgm(t) else t
+
+
 def lean_ty(t, cfg):
     if t == TN:
         return "Nat"
@@ -111,6 +137,8 @@ def lean_ty(t, cfg):
         return "Graph → Matching"
     if t == LSA:
         return "Mat α → List (Nat × Nat)"
+    if is_dgm(t):
+        return "List (α × Option α)"
     if t is None or (isinstance(t, tuple) and any(x is None for x in t[1:])):
         raise Shape("a type could not be inferred: %r" % (t,))
     if t[0] == "list":
@@ -189,6 +217,8 @@ def stmt_parts(s):
         c = s.value
         if isinstance(c, ast.Call) and isinstance(c.func, ast.Attribute) and c.func.attr == "append" and isinstance(c.func.value, ast.Name):
             w.append(c.func.value.id)
+        if getattr(s, "_warn_flag", None):          # `warnings.warn(..)`: sets the flag of its call site (see `mark_warnings`)
+            return [], [s._warn_flag], []
         return [s.value], w, []
     if isinstance(s, ast.If):
         return [s.test], [], [s.body, s.orelse]
@@ -269,6 +299,23 @@ def stmt_use(s, name, cfg):
     return None
 
 
+def is_warn(s):
+    return isinstance(s, ast.Expr) and isinstance(s.value, ast.Call) and dotted(s.value.func) == "warnings.warn" \
+        and len(s.value.args) == 1 and not s.value.keywords
+
+
+def mark_warnings(stmts):
+    """the `warnings.warn(<message>)` statements of a region in source order: the k-th one sets the flag `warn<k>`;
+    -> [(flag, message text)]"""
+    out = []
+    for st in stmts:
+        for x in ast.walk(st):
+            if isinstance(x, ast.stmt) and is_warn(x):
+                x._warn_flag = "warn%d" % (len(out) + 1)
+                out.append((x._warn_flag, ast.unparse(x.value.args[0])))
+    return out
+
+
 def has_escape(stmts):
     for s in stmts:
         if isinstance(s, (ast.Continue, ast.Break, ast.Return)):
@@ -304,7 +351,7 @@ class Tr:
         self.cfg = cfg
         self.top = top or self                  # shared: emitted loop definitions, marks, loop counters
         if top is None:
-            self.defs, self.translated, self.nfor, self.nwhile = [], set(), [0], [0]
+            self.defs, self.translated, self.nfor, self.nwhile, self.conversions = [], set(), [0], [0], []
         self.defname = defname
         self.env, self.vt, self.count, self.pre = {}, {}, {}, []
         self.on_continue = None
@@ -421,6 +468,10 @@ class Tr:
         if isinstance(n, ast.Attribute):
             if n.attr == "size":
                 v = self.expr(n.value)
+                if is_dgm(v.ty):
+                    if v.ty[1] is None or v.ty[1] not in self.env:
+                        raise Shape(".size of an array whose number of columns is not a parameter: %s" % ast.unparse(n))
+                    return E("%s * %s.length" % (self.env[v.ty[1]], par(v, 100)), TN, 70)
                 if not is_list(v.ty):
                     raise Shape(".size of a value that is not a 1-D array")
                 return E("%s.length" % par(v, 100), TN)
@@ -476,12 +527,26 @@ class Tr:
         k = n.slice
         # D.shape[0] / D.shape[1]
         if isinstance(n.value, ast.Attribute) and n.value.attr == "shape" and isinstance(n.value.value, ast.Name):
+            if is_dgm(self.ty(n.value.value.id)) and const_int(k) == 0:
+                return E("%s.length" % self.env[n.value.value.id], TN)
             if const_int(k) not in (0, 1):
                 raise Shape("shape index: %s" % ast.unparse(n))
             if self.ty(n.value.value.id) != MATRIX:
                 raise Shape(".shape of a value that is not the square matrix: %s" % ast.unparse(n))
             return self.shape_expr(n.value.value.id)
         v = self.expr(n.value)
+        if is_dgm(v.ty):
+            # S[np.isfinite(S[:, 1]), :]
+            full = lambda x: isinstance(x, ast.Slice) and x.lower is None and x.upper is None and x.step is None   # noqa: E731
+            ok = isinstance(k, ast.Tuple) and len(k.elts) == 2 and full(k.elts[1]) and isinstance(k.elts[0], ast.Call) \
+                and dotted(k.elts[0].func) == "np.isfinite" and len(k.elts[0].args) == 1 and not k.elts[0].keywords
+            if ok:
+                c = k.elts[0].args[0]
+                ok = isinstance(c, ast.Subscript) and ast.unparse(c.value) == ast.unparse(n.value) and isinstance(c.slice, ast.Tuple) \
+                    and len(c.slice.elts) == 2 and full(c.slice.elts[0]) and const_int(c.slice.elts[1]) == 1
+            if not ok:
+                raise Shape("subscript of a diagram outside `S[np.isfinite(S[:, 1]), :]`: %s" % ast.unparse(n))
+            return E("%s.filter fun p => p.2.isSome" % par(v, 100), v.ty, 10)
         if v.ty == ROW or (is_list(v.ty) and v.ty[1] == ROW and isinstance(k, ast.Tuple)):
             return self.row_subscript(n, v)
         if is_list(v.ty):
@@ -611,7 +676,22 @@ class Tr:
                 raise Shape("np.zeros((k, 3)) with a non-int k")
             return E("List.replicate %s ((0 : Int), (0 : Int), %s)" % (par(k, 100), self.cfg["zero_entry"]), Lst(ROW), 90)
         if name == "np.array" and len(n.args) == 1 and plain:
-            return self.expr(n.args[0], expect)
+            a0 = n.args[0]
+            if isinstance(a0, ast.List) and len(a0.elts) == 1 and isinstance(a0.elts[0], ast.List) and len(a0.elts[0].elts) == 2 \
+                    and [const_int(x) for x in a0.elts[0].elts] == [0, 0]:
+                return E("[(0, some 0)]", Dgm(None))                       # np.array([[0, 0]])
+            return self.expr(a0, expect)
+        if name == "np.array" and len(n.args) == 1 and [(k.arg, ast.unparse(k.value)) for k in n.keywords] == [("dtype", "float")]:
+            v = self.expr(n.args[0])
+            if not is_dgm(v.ty):
+                raise Shape("np.array(x, dtype=float) of something that is not a diagram: %s" % ast.unparse(n))
+            self.top.conversions.append(ast.unparse(n))                    # read as the identity; pinned as text
+            return v
+        if name == "min" and len(n.args) == 2 and plain:
+            a, b = self.expr(n.args[0]), self.expr(n.args[1])
+            if (a.ty, b.ty) != (TN, TN):
+                raise Shape("min of non-ints: %s" % ast.unparse(n))
+            return E("min %s %s" % (par(a, 100), par(b, 100)), TN, 90)
         raise Shape("call outside the subset: %s" % ast.unparse(n))
 
     def lam(self, names_types, body_fn):
@@ -681,6 +761,8 @@ class Tr:
             if len(s.targets) != 1:
                 raise Shape("chained assignment")
             return self.assign(s, s.targets[0], s.value, kk)
+        if isinstance(s, ast.Expr) and getattr(s, "_warn_flag", None):
+            return Let(self.bind(s._warn_flag, TB), "true", kk())
         if isinstance(s, ast.Expr):
             c = s.value
             if isinstance(c, ast.Call) and isinstance(c.func, ast.Attribute) and c.func.attr == "append" and isinstance(c.func.value, ast.Name) \
@@ -818,8 +900,9 @@ class Tr:
             return self.block(stmts, fin, after)
         a = branch(s.body)
         b = branch(s.orelse)
-        if tys[0] != tys[1]:
+        if [norm_ty(t) for t in tys[0]] != [norm_ty(t) for t in tys[1]]:
             raise Shape("the branches of `if %s` give a name two types" % ast.unparse(s.test))
+        tys[0] = [a if a == b else Dgm(None) for a, b in zip(tys[0], tys[1])]
         self.env, self.vt = dict(saved[0]), dict(saved[1])
         pat = tup([self.bind(n, t) for n, t in zip(names, tys[0])])
         return self.with_pre(pre, Join(Ite(c.t, a, b), pat, kk()))
@@ -944,10 +1027,24 @@ def flag_if(body, flag):
     return hits[0]
 
 
+def preamble_end(body, dname):
+    """index behind the last top-level `if` that stands in front of the top-level assignment `<dname> = ...`"""
+    zs = [i for i, s in enumerate(body) if isinstance(s, ast.Assign) and len(s.targets) == 1 and isinstance(s.targets[0], ast.Name)
+          and s.targets[0].id == dname]
+    if not zs:
+        raise Shape("no top-level assignment `%s = ...`" % dname)
+    ifs = [i for i, s in enumerate(body[:zs[0]]) if isinstance(s, ast.If)]
+    if not ifs:
+        raise Shape("no top-level `if` in front of `%s = ...`" % dname)
+    return ifs[-1] + 1
+
+
 def pick_region(body, cfg):
     """the translated statements of a target (anchors: the last top-level block assignment into the matrix, the top-level `while`,
     the top-level `if <flag>:`)"""
     kind = cfg["region"]
+    if kind == "preamble":
+        return body[:preamble_end(body, cfg["matrix"])]
     if kind == "behind_matrix_through_while":
         i0 = behind_matrix(body, cfg["matrix"])
         ws = [i for i, s in enumerate(body) if isinstance(s, ast.While)]
@@ -973,7 +1070,12 @@ def first_translated(body, cfgs):
     return behind_matrix(body, cfgs[0]["matrix"])
 
 
-def skeleton(stmts, translated, lead_hole=False):
+def skeleton(stmts, translated, lead_hole=False, extra=()):
+    translated = set(translated) | set(extra)
+    return _skeleton(stmts, translated, lead_hole)
+
+
+def _skeleton(stmts, translated, lead_hole=False):
     """`stmts` with every translated statement replaced by `...` (consecutive ones by one); the headers of compound statements
     that are not translated stay, their blocks are treated the same way"""
     def go(seq, lead):
@@ -1002,28 +1104,36 @@ def skeleton(stmts, translated, lead_hole=False):
 def translate(fn, cfgs):
     """-> ({lean name: [def texts] | error text}, ids of the translated statements)"""
     body = strip_doc(fn.body)
-    translated, out = set(), {}
+    translated, out, pins = set(), {}, {}
     for cfg in cfgs:
         try:
             stmts = pick_region(body, cfg)
+            warns = mark_warnings(stmts)
             tr = Tr(cfg)
             tr.scope = [x for x in ast.walk(fn) if isinstance(x, ast.stmt)]
             binders = []
             for py, ty, lean in cfg["params"]:
                 binders.append((tr.bind(py, ty), lean_ty(ty, cfg)))
+            for flag, _ in warns:                         # the flags of the `warnings.warn` call sites: not set at entry
+                tr.bind(flag, TB)
             rets = cfg["ret"]
+            entry = [Let(tr.env[flag], "false", None) for flag, _ in warns]
 
             def fin():
                 missing = [r for r in rets if r not in tr.env]
                 if missing:
                     raise Shape("not assigned on every path: %s" % ", ".join(missing))
-                got = [tr.ty(r) for r in rets]
-                if got != cfg["ret_types"]:
+                got = [norm_ty(tr.ty(r)) for r in rets]
+                if got != [norm_ty(t) for t in cfg["ret_types"]]:
                     raise Shape("the results %s have the types %s, expected %s" % (rets, got, cfg["ret_types"]))
                 return Ret([tr.env[r] for r in rets])
             node = tr.block(stmts, fin, [("read", rets)])
             if tr.pre:
                 raise Shape("internal: pending guards")
+            for e in reversed(entry):
+                e.body = node
+                node = e
+            pins[cfg["lean"]] = {"warnings": [m for _, m in warns], "conversions": list(tr.conversions)}
             defs = [t for _, t in tr.defs]
             defs.append("/-- %s -/\ndef %s %s : Option %s :=\n%s" % (cfg["doc"], cfg["lean"], " ".join("(%s : %s)" % b for b in binders),
                                                                       tuple_ty(cfg["ret_types"], cfg), "\n".join(render(node, "  "))))
@@ -1033,18 +1143,19 @@ def translate(fn, cfgs):
             out[cfg["lean"]] = "Shape: %s" % e
         except Exception as e:                       # anything else the source makes the translator do: outside the subset
             out[cfg["lean"]] = "%s: %s" % (type(e).__name__, e)
-    return out, translated
+    return out, translated, pins
 
 
-def after_text(key, fn, stmts):
-    """for the statement-level engine (py2lean_stmt.find_region, targets with `after_engine`): the text of `stmts` -- what follows
-    the matrix region of `fn` -- behind the region's `...`, with the statements THIS engine translates blanked as well"""
+def pin_text(key, fn, stmts, holes):
+    """for the statement-level engine (py2lean_stmt.find_region, targets with `after_engine`): the text of `stmts` -- a stretch of
+    the top-level statements of `fn` that contains the matrix region, whose statements are `holes` -- with the region AND the
+    statements THIS engine translates replaced by `...`"""
     mine = {"bottleneck": "bottleneck_search", "wasserstein": "wasserstein_assign"}[key]
     try:
-        _, translated = translate(fn, [c for c in TARGETS if c["file"] == mine])
+        _, translated, _ = translate(fn, [c for c in TARGETS if c["file"] == mine])
     except Exception:
         translated = set()
-    return skeleton(stmts, translated, lead_hole=True)
+    return skeleton(stmts, translated, extra=holes)
 
 
 # ----------------------------------------------------------------------------- targets (fixed; reviewed against the models)
@@ -1077,7 +1188,33 @@ WS = dict(file="wasserstein_assign", func="wasserstein", pyparams=["dgm1", "dgm2
 ORA = "(oracle : Graph → Matching)"
 MND = "(M N : Nat) (D : Nat → Nat → Ext α)"
 
+PRE_PARAMS = [("c1", TN, "c1"), ("c2", TN, "c2"), ("dgm1", Dgm("c1"), "dgm1"), ("dgm2", Dgm("c2"), "dgm2")]
+PRE_RET = (["S", "M", "T", "N", "warn1", "warn2"], [Dgm(None), TN, Dgm(None), TN, TB, TB])
+
 TARGETS = [
+    dict(BN, lean="bn_preamble", region="preamble", variables="[Zero α]",
+         where="the top-level statements up to and including the last `if` in front of `D = np.zeros(...)`",
+         params=[("matching", TB, "matching")] + PRE_PARAMS, ret=["return_matching"] + PRE_RET[0], ret_types=[TB] + PRE_RET[1],
+         doc="the preamble of `bottleneck` on two arrays with `c1`, `c2` columns whose rows are `(birth, death)` with a death that may be "
+             "non-finite (`none`): the flag, the filtered / substituted diagrams `S`, `T`, their sizes `M`, `N`, and whether the "
+             "first / second `warnings.warn` was reached",
+         conversions=["np.array(dgm1, dtype=float)", "np.array(dgm2, dtype=float)"],
+         warnings=["'dgm1 has points with non-finite death times;' + 'ignoring those points'",
+                   "'dgm2 has points with non-finite death times;' + 'ignoring those points'"],
+         obligations=[
+             ("src_bn_preamble_eq_ref", "(matching : Bool) (c1 c2 : Nat) (dgm1 dgm2 : List (α × Option α))",
+              "bn_preamble matching c1 c2 dgm1 dgm2 = %s.bn_preamble matching c1 c2 dgm1 dgm2" % REF, "rfl",
+              "the generated definition is the reviewed Lean text of the same shape"),
+             ("src_bn_preamble_eq_model", "(matching : Bool) (c1 c2 : Nat) (h1 : 0 < c1) (h2 : 0 < c2) (dgm1 dgm2 : List (α × Option α))",
+              "bn_preamble matching c1 c2 dgm1 dgm2 =\n"
+              "      some (matching, LIFT (withPlaceholder (filterFinite dgm1).1), (withPlaceholder (filterFinite dgm1).1).length,\n"
+              "        LIFT (withPlaceholder (filterFinite dgm2).1), (withPlaceholder (filterFinite dgm2).1).length,\n"
+              "        (filterFinite dgm1).2, (filterFinite dgm2).2)".replace("LIFT", "%s" % "PersimVerif.SrcBridge.Matching.lift"),
+              "by\n  rw [src_bn_preamble_eq_ref]; exact %s.bn_preamble_eq matching c1 c2 h1 h2 dgm1 dgm2" % BR,
+              "**the preamble is the model's `filterFinite` / `withPlaceholder`**, for arrays with any number `c1, c2 ≥ 1` of columns: it "
+              "never raises, `S` / `T` are the model's point lists seen as arrays (`lift`: every death finite), `M` / `N` their lengths, "
+              "and the k-th warning is issued exactly when the model's flag of `dgm<k>` is set"),
+         ]),
     dict(BN, lean="bisect", region="behind_matrix_through_while",
          where="the statements behind the last block assignment `D[...] = ...` up to and including the top-level `while`",
          params=[("HopcroftKarp", ORACLE, "oracle"), ("M", TN, "M"), ("N", TN, "N"), ("D", MATRIX, "D")],
@@ -1155,8 +1292,45 @@ TARGETS = [
               "  have h2 : bn_rows (α := α) = %s.bn_rows := by funext m n d mt; exact src_bn_rows_eq_ref m n d mt\n"
               "  rw [h1, h2]; exact %s.bottleneckWithMatching_eq oracle dgm1 dgm2" % (REF, REF, BR),
               "the whole model `bottleneckWithMatching` (the routine with `matching=True`) is: the model's finite-death filter and "
-              "placeholders (the preamble: pinned as text, `src_aug_entry_skeleton`), the model's matrix (translated: `src_aug_entry_eq_model`), "
+              "placeholders, the model's matrix (translated: `src_aug_entry_eq_model`), "
               "then the TRANSLATED Step 2 and the TRANSLATED extraction loop, `none` for `none`"),
+             ("src_bottleneck_chain_eq_model", "%s (c1 c2 : Nat) (h1 : 0 < c1) (h2 : 0 < c2) (dgm1 dgm2 : List (α × Option α))" % ORA,
+              "bottleneckWithMatching oracle dgm1 dgm2 =\n"
+              "      (bn_preamble true c1 c2 dgm1 dgm2).bind fun p =>\n"
+              "        (bisect oracle p.2.2.1 p.2.2.2.2.1 (augD (UNLIFT p.2.1) (UNLIFT p.2.2.2.1))).bind fun r =>\n"
+              "          (bn_rows p.2.2.1 p.2.2.2.2.1 (augD (UNLIFT p.2.1) (UNLIFT p.2.2.2.1)) r.2).map fun rows =>\n"
+              "            (({ value := r.1, matching := r.2, warn1 := p.2.2.2.2.2.1, warn2 := p.2.2.2.2.2.2 } : Result α), rows)"
+              .replace("UNLIFT", BR + ".unlift"),
+              "by\n  have h0 : bn_preamble (α := α) = %s.bn_preamble := by funext a b c d e; exact src_bn_preamble_eq_ref a b c d e\n"
+              "  have h3 : bisect (α := α) = %s.bisect := by funext o m n d; exact src_bisect_eq_ref o m n d\n"
+              "  have h4 : bn_rows (α := α) = %s.bn_rows := by funext m n d mt; exact src_bn_rows_eq_ref m n d mt\n"
+              "  rw [h0, h3, h4]; exact %s.bottleneck_chain_eq oracle c1 c2 h1 h2 dgm1 dgm2" % (REF, REF, REF, BR),
+              "**the whole routine (`matching=True`) as the chain of its translated parts**: the TRANSLATED preamble (`S`, `M`, `T`, `N`, the "
+              "two warning flags), the matrix `augD` on the finite point lists (`unlift`; = the translated `aug_entry` of "
+              "Generated/SrcBottleneck.lean), the TRANSLATED Step 2, the TRANSLATED extraction loop -- equal to the model "
+              "`bottleneckWithMatching` for every oracle, all diagrams, and arrays with any number `≥ 1` of columns"),
+         ]),
+    dict(WS, lean="ws_preamble", region="preamble", variables="[Zero α]",
+         where="the top-level statements up to and including the last `if` in front of `D = np.zeros(...)`",
+         params=PRE_PARAMS, ret=PRE_RET[0], ret_types=PRE_RET[1],
+         doc="the preamble of `wasserstein` on two arrays with `c1`, `c2` columns whose rows are `(birth, death)` with a death that may "
+             "be non-finite (`none`): the filtered / substituted diagrams `S`, `T`, their sizes `M`, `N`, and whether the first / "
+             "second `warnings.warn` was reached",
+         conversions=["np.array(dgm1, dtype=float)", "np.array(dgm2, dtype=float)"],
+         warnings=["'dgm1 has points with non-finite death times;' + 'ignoring those points'",
+                   "'dgm2 has points with non-finite death times;' + 'ignoring those points'"],
+         obligations=[
+             ("src_ws_preamble_eq_ref", "(c1 c2 : Nat) (dgm1 dgm2 : List (α × Option α))",
+              "ws_preamble c1 c2 dgm1 dgm2 = %s.ws_preamble c1 c2 dgm1 dgm2" % REF, "rfl",
+              "the generated definition is the reviewed Lean text of the same shape"),
+             ("src_ws_preamble_eq_model", "(c1 c2 : Nat) (h1 : 0 < c1) (h2 : 0 < c2) (dgm1 dgm2 : List (α × Option α))",
+              "ws_preamble c1 c2 dgm1 dgm2 =\n"
+              "      some (LIFT (prepared dgm1), (prepared dgm1).length, LIFT (prepared dgm2), (prepared dgm2).length,\n"
+              "        warned dgm1, warned dgm2)".replace("LIFT", "PersimVerif.SrcBridge.Matching.lift"),
+              "by\n  rw [src_ws_preamble_eq_ref]; exact %s.ws_preamble_eq c1 c2 h1 h2 dgm1 dgm2" % BR,
+              "**the preamble is the model's `finitePart` / `warned` / `orPlaceholder`** (`prepared`), for arrays with any number "
+              "`c1, c2 ≥ 1` of columns: it never raises, `S` / `T` are the model's point lists seen as arrays, `M` / `N` their lengths, and "
+              "the k-th warning is issued exactly when `warned dgm<k>`"),
          ]),
     dict(WS, lean="assign", region="behind_matrix_until_if",
          where="the statements behind the last block assignment `D[...] = ...` up to the top-level `if matching:`",
@@ -1209,14 +1383,31 @@ TARGETS = [
               "by\n  have h1 : assign (α := α) = %s.assign := by funext l d; exact src_assign_eq_ref l d\n"
               "  have h2 : ws_rows (α := α) = %s.ws_rows := by funext m n d a b; exact src_ws_rows_eq_ref m n d a b\n"
               "  rw [h1, h2]; exact %s.wasserstein_eq sqrt cp sp lsa d1 d2" % (REF, REF, BR),
-              "the whole model `wasserstein` is: the model's finite-death filter and placeholders (the preamble: pinned as text, "
-              "`src_aug_entry_skeleton`), the model's matrix (entries translated: `src_aug_entry_eq_model` of Generated/SrcWasserstein.lean), "
+              "the whole model `wasserstein` is: the model's finite-death filter and placeholders, the model's matrix (entries "
+              "translated: `src_aug_entry_eq_model` of Generated/SrcWasserstein.lean), "
               "then the TRANSLATED solver call, sum and extraction (`Err.index` for `none`)"),
+             ("src_wasserstein_chain_eq_model", "(sqrt : α → α) (cp sp : α) (lsa : Mat α → List (Nat × Nat)) (c1 c2 : Nat) (h1 : 0 < c1) "
+              "(h2 : 0 < c2)\n    (d1 d2 : Dgm α)",
+              "wasserstein sqrt cp sp lsa d1 d2 =\n"
+              "      match (ws_preamble c1 c2 d1 d2).bind (fun p =>\n"
+              "          (assign lsa (augMatrix sqrt cp sp (UNLIFT p.1) (UNLIFT p.2.2.1))).bind fun r =>\n"
+              "            (ws_rows p.2.1 p.2.2.2.1 (augMatrix sqrt cp sp (UNLIFT p.1) (UNLIFT p.2.2.1)) r.1 r.2.1).map\n"
+              "              fun rows => (r.2.2, rows, p.2.2.2.2.1, p.2.2.2.2.2)) with\n"
+              "      | none => .error .index\n"
+              "      | some (v, rows, w1, w2) => .ok { value := v, warn1 := w1, warn2 := w2, rows := rows }".replace("UNLIFT", BR + ".unlift"),
+              "by\n  have h0 : ws_preamble (α := α) = %s.ws_preamble := by funext a b c d; exact src_ws_preamble_eq_ref a b c d\n"
+              "  have h1' : assign (α := α) = %s.assign := by funext l d; exact src_assign_eq_ref l d\n"
+              "  have h2' : ws_rows (α := α) = %s.ws_rows := by funext m n d a b; exact src_ws_rows_eq_ref m n d a b\n"
+              "  rw [h0, h1', h2']; exact %s.wasserstein_chain_eq sqrt cp sp lsa c1 c2 h1 h2 d1 d2" % (REF, REF, REF, BR),
+              "**the whole routine as the chain of its translated parts**: the TRANSLATED preamble, the matrix `augMatrix` on the finite "
+              "point lists (`unlift`; its entries are the translated `aug_entry` of Generated/SrcWasserstein.lean), the TRANSLATED solver "
+              "call and sum, the TRANSLATED extraction -- equal to the model `wasserstein` for every solver, all diagrams, and arrays "
+              "with any number `≥ 1` of columns"),
          ]),
 ]
 
-# reviewed text of each function from its first translated statement to its end, translated statements as `...`
-SKELETON_AFTER = {
+# reviewed text of each function with the translated statements (this engine's and the matrix region's) as `...`
+SKELETON = {
     "bottleneck_search": "...\nif return_matching:\n    ...\n    return (bdist, np.array(matchidx))\nelse:\n    return bdist",
     "wasserstein_assign": "...\nif matching:\n    ...\n    return (matchdist, ret)\nreturn matchdist",
 }
@@ -1280,28 +1471,31 @@ def trusted_note(key):
 def manifest_note(key):
     """sentence appended to MANIFEST['note'] of a property that builds `key`"""
     if key == "bottleneck_search":
-        what = ("\"Step 2\" of `bottleneck` -- `ds = np.sort(np.unique(D.flatten()))`, `bdist = ds[-1]`, the `while len(ds) >= 1` bisection "
+        what = ("the preamble (float conversion read as the identity, `M = min(S.shape[0], S.size)`, the finite-death filter with its "
+                "warning as a flag, the `[[0, 0]]` substitution; `src_bn_preamble_eq_model`: = `filterFinite` / `withPlaceholder` for "
+                "arrays with any number >= 1 of columns), \"Step 2\" of `bottleneck` -- `ds = np.sort(np.unique(D.flatten()))`, `bdist = ds[-1]`, the `while len(ds) >= 1` bisection "
                 "(`bisect_left(range(ds.size), int(ds.size / 2))` as CPython's loop, the threshold graph `{j : D[i, j] <= d}` per row, the "
                 "Hopcroft-Karp call as the PARAMETER `oracle`, the acceptance test, the two slices; fuel len(ds)+1) -- and the "
                 "`if return_matching:` extraction loop are translated statement by statement and proved EQUAL to the model's "
                 "`searchLoop` / `extractRows` for every oracle and every matrix (`src_bisect_eq_model`, `src_bn_rows_eq_model`; "
-                "`src_bottleneck_with_matching_eq_model`: the model `bottleneckWithMatching` is its filter / placeholder / matrix "
-                "followed by these translated statements)")
+                "`src_bottleneck_chain_eq_model`: the model `bottleneckWithMatching` is the chain translated preamble -> matrix "
+                "`augD` -> translated Step 2 -> translated extraction)")
     else:
-        what = ("`matchi, matchj = optimize.linear_sum_assignment(D)` (the solver as the PARAMETER `lsa`), `matchdist = "
+        what = ("the preamble (`src_ws_preamble_eq_model`: = `finitePart` / `warned` / `orPlaceholder`), "
+                "`matchi, matchj = optimize.linear_sum_assignment(D)` (the solver as the PARAMETER `lsa`), `matchdist = "
                 "np.sum(D[matchi, matchj])` and the vectorised `if matching:` extraction (`np.zeros((k, 3))`, the two column "
                 "assignments, the two masked `-1` assignments, the final mask) are translated statement by statement and proved EQUAL "
                 "to the model's `optSum` of the selected entries / `rowsOf` for every solver and every matrix (`src_ws_value_eq_model`, "
-                "`src_ws_rows_eq_model`; `src_wasserstein_eq_model`: the model `wasserstein` is its filter / placeholder / matrix "
-                "followed by these translated statements)")
-    return ("Source translator (matching): behind the augmented matrix of %s, %s -- via the reviewed Lean text `Ref.*` of the same "
+                "`src_ws_rows_eq_model`; `src_wasserstein_chain_eq_model`: the model `wasserstein` is the chain translated preamble -> matrix `augMatrix` -> "
+                "translated solver call / sum -> translated extraction)")
+    return ("Source translator (matching): around the augmented matrix of %s, %s -- via the reviewed Lean text `Ref.*` of the same "
             "shape (`src_<def>_eq_ref`) and the inductions of Lemmas/SrcBridgeMatching.lean (Generated/%s, Mathlib-free).  An edit of a "
             "translated line breaks the obligation of the definition it lands in (or `srcShape_<f>_recognised` when it leaves the subset) "
             "and triggers the failing-input search, except a renaming of locals or a rewrite that the `let`s / definitional unfolding "
-            "absorb.  Pinned as text: the `if <flag>:` header and the `return` statements (`src_%s_skeleton_after`; "
-            "`src_aug_entry_skeleton_after` of the matrix file shrinks to the same text), the signature, the module-level bindings "
-            "(`src_%s_bindings`); still pinned only as text: the preamble in front of the matrix (float conversion, finite-death filter "
-            "with its warning, the (0,0) placeholder: `src_aug_entry_skeleton`).  Not tied by the translator: the contract of the "
+            "absorb.  Pinned as text: the `if <flag>:` header and the `return` statements (`src_%s_skeleton`; "
+            "`src_aug_entry_skeleton` / `…_skeleton_after` of the matrix file shrink to `...` / the same text), the signature, the module-level bindings "
+            "(`src_%s_bindings`), the `np.array(x, dtype=float)` calls read as the identity and the warning messages "
+            "(`src_<f>_conversions`, `src_<f>_warnings`).  Not tied by the translator: the contract of the "
             "external solver (a hypothesis of the model's theorems, certified per call by the correspondence streams), float rounding, "
             "the callers (trusted: the translator's stated conventions, its tables, Lemmas/SrcLibMatching.lean)."
             % (FILES[key][0], what, FILES[key][1], FILES[key][0].split("/")[-1][:-3], key))
@@ -1319,15 +1513,14 @@ def header(key):
         "/-!\n"
         "GENERATED by harness/translator/py2lean.py (matching engine py2lean_matching.py) from %s — do not edit;\n"
         "rewritten on every run (`pre_build` of %s and C06).\n\n"
-        "What `%s` does BEHIND its augmented matrix, translated STATEMENT BY STATEMENT (`ast`).  Obligations:\n"
+        "What `%s` does in front of and BEHIND its augmented matrix, translated STATEMENT BY STATEMENT (`ast`).  Obligations:\n"
         "  * `src_<def>_eq_ref`: every generated definition equals the reviewed Lean text of the same shape in\n"
         "    Lemmas/SrcBridgeMatching.lean (`Ref.*`; each step is `rfl`), so an edit of a translated line -- other than a renaming of\n"
         "    locals or a rewrite that the `let`s / definitional unfolding absorb -- breaks the obligation of the definition it lands in;\n"
         "  * `src_<def>_eq_model`: the translated statements EQUAL the hand-written model (for every oracle / solver and every matrix;\n"
         "    inductions in Lemmas/SrcBridgeMatching.lean), up to the whole model routine (`src_%s_eq_model`);\n"
-        "  * text pins: `src_%s_skeleton_after`, `src_%s_signature`, `src_%s_bindings`.\n"
-        "The part of the function in front of these statements is in Generated/%s (the matrix, translated entry-wise; the preamble,\n"
-        "pinned as text).\n\n"
+        "  * text pins: `src_%s_skeleton`, `src_%s_signature`, `src_%s_bindings`, `src_<f>_conversions`, `src_<f>_warnings`.\n"
+        "The matrix region between the preamble and these statements is in Generated/%s (translated entry-wise).\n\n"
         "%s\n"
         "A source outside the subset gives `def srcShape_<f> : Bool := false`, and `srcShape_<f>_recognised` fails.\n"
         "-/\n"
@@ -1366,7 +1559,7 @@ def render_file(key, root):
             err = "Shape: parameters of %s are not %s" % (fn.name, cfgs[0]["pyparams"])
     if err is None:
         try:
-            res, translated = translate(fn, cfgs)
+            res, translated, pins = translate(fn, cfgs)
         except Exception as e:
             err = "%s: %s" % (type(e).__name__, e)
     for cfg in cfgs:
@@ -1391,6 +1584,14 @@ def render_file(key, root):
             o.append("/-- %s -/" % doc)
             o.append("theorem %s%s :\n    %s := %s\n" % (name, (" " + binders) if binders else "", stmt, proof))
             names.append(name)
+        for kind, title in (("conversions", "the array conversions the translation reads as the identity"),
+                            ("warnings", "the message expressions of the `warnings.warn` statements, in source order (statement k sets `warn<k>`)")):
+            if cfg.get(kind) is not None:
+                o.append("/-- %s, as `ast.unparse` prints them -/" % title)
+                o.append("def src%s_%s : List String :=\n  [%s]" % (kind.capitalize(), f, ", ".join(lean_str(x) for x in pins[f][kind])))
+                o.append("theorem src_%s_%s : src%s_%s =\n  [%s] := rfl\n"
+                         % (f, kind, kind.capitalize(), f, ", ".join(lean_str(x) for x in cfg[kind])))
+                names.append("src_%s_%s" % (f, kind))
         o.append("end\n")
         # the obligations that mention the whole model routine need the classes of the whole model; they are stated only when
         # every definition they mention was translated
@@ -1407,17 +1608,18 @@ def render_file(key, root):
         fname = py.split("/")[-1][:-3]
         body = strip_doc(fn.body)
         try:
-            skel = skeleton(body[first_translated(body, cfgs):], translated, lead_hole=True)
+            lo, hi = preamble_end(body, cfgs[0]["matrix"]), first_translated(body, cfgs)
+            skel = skeleton(body, translated, extra={id(x) for x in body[lo:hi]})     # (the matrix region: the other engine's)
         except Shape as e:
             skel = "Shape: %s" % e
         o.append("/-! ### text pins of `%s` -/\n" % func)
-        o.append("/-- the function from the first statement behind its matrix region (`...`) to its end, every translated statement replaced "
-                 "by `...`, as `ast.unparse` prints it: what the translation does not read (the `if <flag>:` header, the `return` "
-                 "statements) -/")
-        o.append("def srcSkeletonAfter_%s : String :=\n  %s" % (fname, lean_str(skel)))
-        o.append("theorem src_%s_skeleton_after : srcSkeletonAfter_%s =\n  %s := rfl\n" % (fname, fname, lean_str(SKELETON_AFTER[key])))
+        o.append("/-- the function with every translated statement (of this file and of the matrix region of Generated/%s) replaced by "
+                 "`...`, as `ast.unparse` prints it: what the translation does not read (the `if <flag>:` header, the `return` "
+                 "statements) -/" % ("SrcBottleneck.lean" if fname == "bottleneck" else "SrcWasserstein.lean"))
+        o.append("def srcSkeleton_%s : String :=\n  %s" % (fname, lean_str(skel)))
+        o.append("theorem src_%s_skeleton : srcSkeleton_%s =\n  %s := rfl\n" % (fname, fname, lean_str(SKELETON[key])))
         o.append(render_signature(func, signature_text(fn), SIGNATURES.get((key, func), "")))
-        info["functions"]["pins"] = {"obligations": ["src_%s_skeleton_after" % fname, "src_%s_signature" % sanitize(func)]}
+        info["functions"]["pins"] = {"obligations": ["src_%s_skeleton" % fname, "src_%s_signature" % sanitize(func)]}
     if tree is not None:
         nt = {py: not_translated(py, tree, _base.all_target_functions(py))}
         info["not_translated"] = nt
